@@ -81,7 +81,8 @@ func (s *store) hashValues(rng *rand.Rand) []string {
 		"' OR '1'='1", "\" OR 1=1 --", "%", "_", "%25", "a;DROP TABLE headers;--", "?", "#", "*", "..", ".", "\\",
 		"{}", "[]", "<script>", "$1", ":hash", "?1",
 		// empty, huge, unicode, control
-		"", randHex(rng, 10240), randHex(rng, 50001), strings.Repeat("f", 70000), some[:20] + "%", strings.Repeat("é", 5120), "ハッシュ", "\U0001F600", "\u202e" + some, "\x00", some[:10] + "\x00" + some[11:],
+		"", randHex(rng, 10240), randHex(rng, 50001), strings.Repeat("f", 70000), some[:20] + "%", strings.Repeat("é", 5120),
+		"\xff", "\xc3\x28", "\x80" + some[:10], some[:20] + "\xfe\xff", // bytes that are not valid UTF-8 (sent percent-escaped) "ハッシュ", "\U0001F600", "\u202e" + some, "\x00", some[:10] + "\x00" + some[11:],
 		"\xff\xfe", "a/b", "/", "//",
 		// words that collide with static routes
 		"byHeight", "state", "commonAncestor", "ancestor", "longest",
@@ -96,6 +97,7 @@ func (s *store) rootValues(rng *rand.Rand) []string {
 		s.rootAtTip, s.rootGenesis, pick(rng, s.rootsLongest), pick(rng, s.rootsLongest), pick(rng, s.rootsStale), pick(rng, s.rootsOrphan),
 		randHex(rng, 64), strings.Repeat("0", 64), strings.ToUpper(some), reverseHexBytes(some), some[:63], some + "0",
 		"", "a", "null", strings.Repeat("g", 64), "' OR '1'='1", "%", randHex(rng, 10240), "ルート", "\x00", "-1", "0",
+		"\xff", "\xc3\x28", some[:20] + "\x80", // not valid UTF-8
 		randHex(rng, 50001), strings.Repeat("a", 70000), some[:20] + "%", some[:62] + "__", // beyond the database engine's pattern limits; SQL wildcards
 		s.tip, // a block hash where a merkle root is expected
 	}
